@@ -58,6 +58,9 @@ def rotation_set(rng, name):
 
     if name == "none":
         return None, [Rotation.identity()]
+    if name == "single":   # K = 1, but not the identity
+        r = gen.small_rotation(rng, 18, 40)
+        return (Rotation.from_quat(r.as_quat()[None]) if rng.random() < 0.5 else [r]), [r]
     if name == "quarter":
         rots = [Rotation.identity(), Rotation.from_rotvec([np.pi / 2, 0, 0]), Rotation.from_rotvec([-np.pi / 2, 0, 0]),
                 Rotation.from_rotvec([0, 0, np.pi / 2])]
